@@ -135,8 +135,8 @@ fn inject(m: &mut RecipeM, sample: u8, variant: u8, pos: u16) {
         }),
         0 => TokM::Comp(comp(["olive oil|oil", "wine|w", "a|b c"][variant as usize % 3], None)),
         1 => {
-            let v = ["2-3", "1.5-2", "1/2-3/4", "2 - 3"][variant as usize % 4];
-            let unit = (variant & 4 != 0 && variant & 1 == 0).then(|| "kg".to_string());
+            let v = ["2-3", "1.5-2", "1/2-3/4", "2 - 3", "1/0-2", "1 - 1 1/0", "1/99999999999-2"][variant as usize % 7];
+            let unit = (variant & 8 != 0 && variant & 1 == 0).then(|| "kg".to_string());
             TokM::Comp(comp("eggs", Some(QtyM { lock: false, value: ValM::Text(v.into()), unit, blank_sep: false })))
         }
         2 => {
